@@ -4,7 +4,9 @@
    multiset of values (MVStore!SameStoreBag).
    Lines (written by `vh store`):
      ev = "compile" : ref = what the sequential codec emits for the file, got = dump of the compiled database;
-                      referr # "" : the codec rejects a line -> the compilation must fail for this setting
+                      referr # "" : the codec rejects a line -> the compilation must fail for this setting;
+                      allowfail : the file holds a line beyond the scanner's token limit - refusing it is fine,
+                      succeeding with anything but the full reference is not
      ev = "diff"    : ref = fresh compile of the next file, got = database after ApplyDiff
      ev = "baddiff" : ref = dump before, got = dump after a diff that must be refused
      ev = "preproc" : ref = compile of the original file, got = compile of the preprocessed file
@@ -22,7 +24,7 @@ Same(e) == /\ e.missing = <<>> /\ e.extra = <<>>
 
 Verdict(e) ==
   CASE e.ev = "compile" -> IF e.referr # "" THEN (IF e.err = "" THEN "rejected-line-accepted" ELSE "ok")
-                            ELSE IF e.err # "" THEN "compile-failed"
+                            ELSE IF e.err # "" THEN (IF e.allowfail THEN "ok" ELSE "compile-failed")
                             ELSE IF ~Same(e) THEN "store-differs" ELSE "ok"
     [] e.ev = "diff" -> IF e.err # "" THEN "diff-refused" ELSE IF ~Same(e) THEN "store-differs" ELSE "ok"
     [] e.ev = "baddiff" -> IF e.err = "" THEN "bad-diff-accepted" ELSE IF ~Same(e) THEN "failed-diff-changed-store" ELSE "ok"
